@@ -120,6 +120,22 @@ def generate(rng, tier):
     cases.append(Case("di.parse", [enc(b"SHA1 (" + b"n" * 70000 + b") = " + b"a" * 70000)], meta={"nt": True, "src": "big"}))
     cases.append(Case("pl.parse", [enc(b"@name " + b"x" * 3000 + b"\n" + b" " * 3000)], meta={"nt": True, "src": "big"}))
     cases.append(Case("di.parse", [enc(b"SHA1 (" + b"n" * 3000 + b") = " + b"a" * 3000)], meta={"nt": True, "src": "big"}))
+    # many items of one kind in a single input (what a count kept in a small integer would overflow at 256 / 65536):
+    # words on a distinfo line, '=' and blanks in a pkg_summary value, words of a packing-list command, items of a list
+    # variable, version components, path segments, ':' in a dependency
+    for N in (254, 255, 256, 257, 1000, 65535, 65536, 65537):
+        w = b" w" * N
+        cases.append(Case("di.parse", [enc(b"Size (foo-1.0.tar.gz) = 1234" + w + b"\nSHA1 (foo-1.0.tar.gz) = abc" + w + b"\n")], meta={"nt": True, "src": "count"}))
+        cases.append(Case("di.parse", [enc(b"$NetBSD$\n\n" + b"x " * N + b"(f) = 1\nSHA1 " + b"(f) " * N + b"= 2\nSHA1 (f) " + b"= " * N + b"3\n")], meta={"nt": True, "src": "count"}))
+        cases.append(Case("pl.parse", [enc(b"@name foo-1.0" + w + b"\n@exec" + w + b"\n@pkgdep" + b" " * N + b"a" + b"\t" * N + b"\n" + b"@comment x\n" * min(N, 1000))], meta={"nt": True, "src": "count"}))
+        cases.append(Case("pl.query", [enc(b"@cwd /p\n" + b"f\n" * min(N, 1000) + b"@ignore\n" * min(N, 1000) + b"g\n")], meta={"nt": True, "src": "count"}))
+        cases.append(Case("sum.parse", [enc("COMMENT=" + "a=b " * N + "\nDEPENDS=x\n" * min(N, 1000))], meta={"nt": True, "src": "count"}))
+        cases.append(Case("scan.readb", [enc(b"PKGNAME=a-1\nALL_DEPENDS=" + b"p-[0-9]*:../../c/p " * min(N, 3000) + b"\nMULTI_VERSION=" + b"A=1 " * N + b"\n" + b"PKGNAME=b-2\n" * min(N, 1000)), "N"], meta={"nt": True, "src": "count"}))
+        cases.append(Case("dewey.match", [enc("p>=1" + ".0" * N), enc("p-1" + ".0" * (N - 1) + ".1")], meta={"nt": True, "src": "count"}))
+        cases.append(Case("pkgname", [enc("a" + "-b" * N + "-1.0nb" + "nb" * N + "3")], meta={"nt": True, "src": "count"}))
+        cases.append(Case("path.new", [enc("../" * N + "c/p")], meta={"nt": True, "src": "count"}))
+        cases.append(Case("path.new", [enc("c" + "/" * N + "p")], meta={"nt": True, "src": "count"}))
+        cases.append(Case("dep.new", [enc("p>=1" + ":" * N + "../../c/p")], meta={"nt": True, "src": "count"}))
     cases.append(Case("pat.match", [enc("{a,b}" * 12 + "-[0-9]*"), enc("ababababababababababab-1")], meta={"nt": True, "src": "big"}))
     cases.append(Case("pat.match", [enc("{}" * 3000 + "x-1"), enc("x-1")], meta={"nt": True, "src": "deep"}))
     # formerly the known finding KF-C17-altdepth (stack overflow, repaired): very many groups, implementation only, expected verdicts
